@@ -222,7 +222,8 @@ def observe_registry_all(args):
     cnt = 0
     for kind in ("dense", "sparse"):
         pid = labelling(n, kind, rnd)
-        hhmap = {0: 0, 1: 1, 2: 2} if kind == "dense" else {0: 7, 1: 3, 2: 11}
+        # injective household labellings for any number of households: identity, and a sparse non-monotone one
+        hhmap = {h: h for h in range(12)} if kind == "dense" else {h: (7 * h + 5) % 23 + 100 * (h % 2) for h in range(12)}
         for order in orders_for(n, rnd, max_orders):
             o = run_registry(pop, list(order), pid, hhmap)
             cnt += 1
